@@ -250,6 +250,10 @@ def layers(tier):
     for c in chunks(seqs_of(2, 2), 8):      # all-numeric candidate set (int64 keys beyond 2**53 and a float column)
         jobs.append({'L': T22[1][0], 'R': T22[1][1], 'seqs': c, 'mode': 'ops', 'sims': ['jaccard-method', 'count-ws-bag'],
                      'pres': pres, 'keys': 'big'})
+    for c in chunks(seqs_of(3, 2, maxlen=2, repeats=False), 8):   # strings that read like a printed missing marker
+        for p_ in (0, 3):
+            jobs.append({'L': ['None', None, 'nan'], 'R': ['None', 'nan'], 'seqs': c, 'mode': 'ops',
+                         'sims': ['jaccard-method'], 'pres': p_})
     S3 = seqs_of(3, 2, maxlen=2, repeats=False) + [[(i, j) for i in range(3) for j in range(2)],
                                                    [(i, j) for j in range(2) for i in (2, 0, 1)]]
     for c in chunks(S3, 8):                 # three left rows labelled 0,1,0: cached and uncached token paths
